@@ -186,3 +186,26 @@ func (c *Cluster) pushQueue(op *Operator, a *Action, dec *queue.DecodedSSVMessag
 	}
 	return nil
 }
+
+// QueueModelLen is the number of messages the driver pushed into the role's queue that no consumer has handled yet
+// (queue mode). Conservation monitors compare it with the real queue's Len() at quiescent points.
+func (op *Operator) QueueModelLen(role spectypes.BeaconRole) int {
+	if op.q == nil {
+		return 0
+	}
+	op.q.mu.Lock()
+	defer op.q.mu.Unlock()
+	return len(op.q.queued[role])
+}
+
+// QueueRealLen is Len() of the validator's real queue for the role (-1 if there is none).
+func (op *Operator) QueueRealLen(role spectypes.BeaconRole) int {
+	if op.Val == nil {
+		return -1
+	}
+	qc, ok := op.Val.Queues[role]
+	if !ok {
+		return -1
+	}
+	return qc.Q.Len()
+}
